@@ -588,8 +588,15 @@ pub fn main(args: &[String]) -> i32 {
 	let mut oracle = String::new();
 	let mut dist: BTreeMap<String, u64> = BTreeMap::new();
 	let mut nontrivial = std::collections::HashSet::new();
-	for _ in 0..count {
+	let only: Option<u64> = std::env::var("VERIF_ONLY").ok().and_then(|v| v.parse().ok());
+	for case_no in 0..count {
 		let case = gen_case(&mut rng);
+		if only.map_or(false, |o| o != case_no) {
+			continue
+		}
+		if only.is_some() {
+			eprintln!("{:#?}", case.steps);
+		}
 		let toks = case_tokens(&case);
 		out.case(&toks);
 		crate::util::watch_begin(&out, &toks);
